@@ -91,7 +91,7 @@ def find_bad_c17(root):
     return ((w or '') + ' | dialects failing init / disagreeing enum constants / golden CRC mismatches / released messages whose CRC_EXTRA changed (dialect, id, type) / same id+name with different Go types: ' + out)[:2500]
 
 P['C17'] = dict(
-    rule='all 19 shipped dialects: Initialize, CRCExtra of every message, GetMessage for every defined id, its neighbours +-1, 300 (quick) / 20000 (thorough) random ids of the 2^24 space and the ids 2^24-1, 2^24, 2^32-1 (checking the returned codec belongs to the message with that id); 120 / 2000 user dialects built from random subsets with injected duplicate ids and malformed structs. Non-trivial: lookup found a codec or initialisation succeeded.; obligation on the regenerated tables: 395 released messages (id, Go type name) keep the CRC_EXTRA of Spec/CrcSnapshot.v in every shipped dialect other than development',
+    rule='all 19 shipped dialects: Initialize, CRCExtra of every message, GetMessage for every defined id, its neighbours +-1, 300 (quick) / 20000 (thorough) random ids of the 2^24 space and the ids 2^24-1, 2^24, 2^32-1 (checking the returned codec belongs to the message with that id); 120 / 2000 user dialects built from random subsets with injected duplicate ids and malformed structs. Non-trivial: lookup found a codec or initialisation succeeded.; obligation on the regenerated tables: 395 released messages (id, Go type name) keep the CRC_EXTRA of Spec/CrcSnapshot.v in every shipped dialect other than development; eight goroutines looking up ids (a few of their own each, now and then any, absent ones included) 20000 / 400000 times on one shared dialect.ReadWriter: every lookup returns the codec of the message with that id',
     assumptions=['Go map modelled as an association list (order irrelevant: ids unique after Initialize)'],
     mismatch_meaning='dialect initialisation or id lookup differs from the model proved correct for every id: concrete dialect and id',
     find_bad=find_bad_c17,
@@ -112,7 +112,7 @@ P['C08'] = dict(
 )
 
 P['C20'] = dict(
-    rule='entry sequences (1..4 entries; v1/v2, signed, raw and dialect-decoded messages, times before/after 1970, at int64-scale values and with sub-microsecond offsets) with unencodable entries (v1 id > 255, message not in the dialect) at random positions; written through tlog.Writer with every budget of successful underlying writes (an error at the k-th Write for every k): per-entry outcome and file bytes compared; the file read back whole and cut at EVERY byte offset, n+3 reads each: sequence of entries / errors compared. Non-trivial: an entry was written or read.; the largest entry (signed v2 frame, 255-byte payload) in every eighth sequence; logs of 350..650 entries (several times the 4096-byte read buffer); the underlying writer follows an outcome oracle: besides the k-th-and-later-fail budgets, exactly the k-th underlying Write fails for every k (transient failure); entries read back are kept as returned and rendered only after the last read (an entry must not change because more was read)',
+    rule='entry sequences (1..4 entries; v1/v2, signed, raw and dialect-decoded messages, times before/after 1970, at int64-scale values and with sub-microsecond offsets) with unencodable entries (v1 id > 255, message not in the dialect) at random positions; written through tlog.Writer with every budget of successful underlying writes (an error at the k-th Write for every k): per-entry outcome and file bytes compared; the file read back whole and cut at EVERY byte offset, n+3 reads each: sequence of entries / errors compared. Non-trivial: an entry was written or read.; the largest entry (signed v2 frame, 255-byte payload) in every eighth sequence; logs of 350..650 entries (several times the 4096-byte read buffer); the underlying writer follows an outcome oracle: besides the k-th-and-later-fail budgets, exactly the k-th underlying Write fails for every k (transient failure); entries read back are kept as returned and rendered only after the last read (an entry must not change because more was read); a time read back must be the instant its microseconds denote (UnixMicro alone wraps around)',
     assumptions=['a failing underlying Write writes nothing', 'bufio.Reader modelled by the flat stream semantics (Model/Stream.v, proved equivalent to the chunked model)'],
     mismatch_meaning='file contents, reported errors or entries read back differ from the model proved to round-trip, to be truncation-safe and to leave no partial entry: concrete entry sequence / cut offset / failing write',
 )
@@ -180,7 +180,7 @@ P['C10'] = dict(
 
 P['C11'] = dict(
     bin='scen', compare=cmp_scen,
-    rule='real Node over 1..5 custom endpoints; 1..3 submitter goroutines each issuing 3..17 calls drawn from the six Write* calls (messages and forwarded frames carrying a serial number; targets all / one / all-but-one, sometimes a channel of another node), with concurrent incoming traffic, GOMAXPROCS 1/2/16; total per channel below the queue size so nothing may be dropped; a FIFO marker per channel closes the observation. Per channel: every transport write must be exactly one frame; forwarded frames keep their header, originated messages carry the configured ids and per-link sequence numbers 0,1,2,..; the serial sequence on the wire is checked by the extracted acceptance predicate fan_ok (restricted to any submitter it equals that submitter\'s targeted submissions in order, and holds nothing else). Non-trivial: the predicate was evaluated on a non-empty wire.; router scenarios (every received frame forwarded to the other channels while several more arrive in the same transport read, with and without a dialect: forwarded bytes identical, in order, nothing back to the sender); a stalled sibling channel with an overflowing queue must not keep anything from the healthy one nor block the submitter; ArduPilot heartbeats from 20..40 distinct components (one burst of seven stream requests each) while the application writes 40..80 messages to the same channel: every write on the wire is one whole frame, sequence numbers gapless, count exact; a router variant that also answers with stream requests; signed-v2, v2 and v1 nodes writing messages with payloads of 250..255 bytes next to small ones, as messages and as frames to forward: every transport write is exactly one frame that reads back (with the key) as the item submitted, in order',
+    rule='real Node over 1..5 custom endpoints; 1..3 submitter goroutines each issuing 3..17 calls drawn from the six Write* calls (messages and forwarded frames carrying a serial number; targets all / one / all-but-one, sometimes a channel of another node), with concurrent incoming traffic, GOMAXPROCS 1/2/16; total per channel below the queue size so nothing may be dropped; a FIFO marker per channel closes the observation. Per channel: every transport write must be exactly one frame; forwarded frames keep their header, originated messages carry the configured ids and per-link sequence numbers 0,1,2,..; the serial sequence on the wire is checked by the extracted acceptance predicate fan_ok (restricted to any submitter it equals that submitter\'s targeted submissions in order, and holds nothing else). Non-trivial: the predicate was evaluated on a non-empty wire.; router scenarios (every received frame forwarded to the other channels while several more arrive in the same transport read, with and without a dialect: forwarded bytes identical, in order, nothing back to the sender); a stalled sibling channel with an overflowing queue must not keep anything from the healthy one nor block the submitter; ArduPilot heartbeats from 20..40 distinct components (one burst of seven stream requests each) while the application writes 40..80 messages to the same channel: every write on the wire is one whole frame, sequence numbers gapless, count exact; a router variant that also answers with stream requests; signed-v2, v2 and v1 nodes writing messages with payloads of 250..255 bytes next to small ones, as messages and as frames to forward: every transport write is exactly one frame that reads back (with the key) as the item submitted, in order; forty raw messages of the dialect ending in zero bytes written to all three channels of a v2 node: valid frames in order on every channel and the application\'s message unchanged',
     assumptions=['acceptance predicate fan_ok is the decidable form of C11_exactly_once + C11_wire_in_order when no queue overflows', 'scheduler perturbation is search'],
     mismatch_meaning='a wire shows a lost, duplicated, reordered, foreign or torn item, or wrong header fields: concrete submission history',
 )
@@ -200,7 +200,7 @@ P['C12'] = dict(
 
 P['C14'] = dict(
     bin='scen', compare=cmp_scen,
-    rule='(1) pkg/timednetconn over a recording net.Conn: random Read/Write sequences, the recorded call trace (deadline armed before every call, deadline value within 20 percent of the configured timeout) compared with the model; (2) serial endpoint over fake devices (verif hook), reconnect period 60 ms: scripts of 2..6 outcomes (open failure / open ok then read error with a scripted cause): observed trace of open attempts, back-offs (inferred from gaps >= 0.7 period), open and close events with their cause compared with the provider model, two channels open at once flagged; (3) custom endpoint: close event carries the injected cause; (4) TCP client against a server that accepts, sends a frame and hangs up k times after a period with nothing listening: open/close alternation compared with the model; (5) TCP and UDP servers, idle timeout 200 ms: two peers get their own channels, the silent one is closed by a timeout inside [0.9 idle, 2 idle + 1.5 s], the talking one is not, a third peer is still accepted. Non-trivial: a trace with at least one channel.; in the serial scripts the devices with an odd cause have a Write stuck in the transport at the moment the read fails; a TCP client against a server whose accept queue is full (listen backlog 0): attempts end in dial time-outs, then the server accepts and the client must connect; (6) idle expiry against the timed model: a peer of a TCP / UDP server sends bursts with gaps of 60..340 ms (idle time-out 400 ms) and stops: the observed closing time must lie in [model - 60 ms, model + 600 ms] where the model gets the measured arrival times; the timednetconn call trace with scripted results of the wrapped connection (failed, timed-out, partial): handed back unchanged, next call made afresh; a healthy TCP client channel fed valid frames, junk, a wrong checksum and v1 frames with a right checksum and a payload of the wrong length: parse errors only, no close event, one connection; a UDP server with four peers whose datagrams start with a frame, with junk before a frame, never on a frame boundary (a sender joined mid-stream), with a junk byte before every frame: each gets its channel and at least three of its frames',
+    rule='(1) pkg/timednetconn over a recording net.Conn: random Read/Write sequences, the recorded call trace (deadline armed before every call, deadline value within 20 percent of the configured timeout) compared with the model; (2) serial endpoint over fake devices (verif hook), reconnect period 60 ms: scripts of 2..6 outcomes (open failure / open ok then read error with a scripted cause): observed trace of open attempts, back-offs (inferred from gaps >= 0.7 period), open and close events with their cause compared with the provider model, two channels open at once flagged; (3) custom endpoint: close event carries the injected cause; (4) TCP client against a server that accepts, sends a frame and hangs up k times after a period with nothing listening: open/close alternation compared with the model; (5) TCP and UDP servers, idle timeout 200 ms: two peers get their own channels, the silent one is closed by a timeout inside [0.9 idle, 2 idle + 1.5 s], the talking one is not, a third peer is still accepted. Non-trivial: a trace with at least one channel.; in the serial scripts the devices with an odd cause have a Write stuck in the transport at the moment the read fails; a TCP client against a server whose accept queue is full (listen backlog 0): attempts end in dial time-outs, then the server accepts and the client must connect; (6) idle expiry against the timed model: a peer of a TCP / UDP server sends bursts with gaps of 60..340 ms (idle time-out 400 ms) and stops: the observed closing time must lie in [model - 60 ms, model + 600 ms] where the model gets the measured arrival times; the timednetconn call trace with scripted results of the wrapped connection (failed, timed-out, partial): handed back unchanged, next call made afresh; a healthy TCP client channel fed valid frames, junk, a wrong checksum and v1 frames with a right checksum and a payload of the wrong length: parse errors only, no close event, one connection; a UDP server with four peers whose datagrams start with a frame, with junk before a frame, never on a frame boundary (a sender joined mid-stream), with a junk byte before every frame: each gets its channel and at least three of its frames; the idle scenario runs on TCP / UDP server and client endpoints, the first run of each with arrivals at 0, 150, 450, 500 ms against a 400 ms time-out',
     assumptions=['deadline enforcement is the operating system\'s; expiry is checked inside a tolerant bracket (a deadline firing inside a frame surfaces as a parse error first, the next read closes the channel)', 'back-offs are observed through timing with tolerance'],
     mismatch_meaning='the observed lifecycle of channels (attempts, back-offs, open/close events and causes, idle expiry) differs from the provider model proved to reconnect after every failure with at most one channel open',
 )
